@@ -274,7 +274,7 @@ class DataclassAdapter(GenericCallAdapter):
             return getattr(value, pos_or_name)
         else:
             args = [field for field in fields(value) if field.init]
-            return args[pos_or_name]
+            return getattr(value, args[pos_or_name].name)
 
 
 try:
@@ -322,7 +322,10 @@ else:
             return ([], kwargs)
 
         def argument(self, value, pos_or_name):
-            assert isinstance(pos_or_name, str)
+            if not isinstance(pos_or_name, str):
+                # positional argument in the snapshot: A(1, 2)
+                args = [f for f in attrs.fields(type(value)) if f.init]
+                pos_or_name = args[pos_or_name].name
             return getattr(value, pos_or_name)
 
 
@@ -423,7 +426,9 @@ class NamedTupleAdapter(GenericCallAdapter):
         )
 
     def argument(self, value, pos_or_name):
-        assert isinstance(pos_or_name, str)
+        if not isinstance(pos_or_name, str):
+            # positional argument in the snapshot: N(1, 2)
+            return value[pos_or_name]
         return getattr(value, pos_or_name)
 
 
